@@ -32,6 +32,10 @@ HAND_PAIRS = [
     ('<body><style>a{}</style>lead text <p>x</p></body>', '<body><style>a{}</style>lead text <p>x</p> more</body>'),
     # an element whose start tag the marker machines never track as open, inside a changed run, followed by blocks
     ('<div>k</div>', '<div>k</div><span>w <iframe></iframe></span><p>q</p>'),
+    # an iframe with fallback text (raw text to a parser), a change that begins before it and ends inside it, blocks after it
+    ('intro <iframe src="/f">Your browser does not support frames</iframe><p>next para</p><p>last</p>',
+     'intro changed <iframe src="/g">This browser does not support frames</iframe><p>next para</p><p>last</p>'),
+    ('<div>intro <iframe src="/f">Your browser does not support frames</iframe></div><p>next</p>', '<div>intro <iframe src="/f">Your browser supports no frames</iframe></div><p>next</p>'),
     ('<div>k</div><span>w <iframe src="/f"></iframe> v</span><p>q</p><p>r</p>', '<div>k</div><p>r</p>'),
     ('<p>one</p><hr><p>two</p>', '<p>one</p><p>new</p><hr><p>two three</p>'),
     ('<ul><li style="display: inline;">Home</li></ul><p>x</p>', '<ul><li style="display: inline;">Home</li><li style="display: inline;">News</li></ul><section style="display:inline"><p>new block</p></section><p>x</p>'),
